@@ -1,0 +1,16 @@
+//go:build verif
+
+package interpreter
+
+import "context"
+
+// VerifHook, when set, receives one event per instrumented step of a run.
+// It is only compiled with the "verif" build tag and is used by the
+// verification harness to observe (and gate) the interpreter's steps.
+var VerifHook func(ctx context.Context, event string, args ...any)
+
+func verifEmit(ctx context.Context, event string, args ...any) {
+	if VerifHook != nil {
+		VerifHook(ctx, event, args...)
+	}
+}
